@@ -142,6 +142,64 @@ pub fn run(ctx: &Ctx) -> i32 {
         });
     }
 
+
+    // cels whose pixel extent reaches or exceeds 65536 on an axis, at offsets that put only a part on the canvas
+    if ctx.wants_family("large-extent") {
+        // (kind 0 tilemap / 1 image, vertical, tiles or pixels along the axis, tile extent, offset)
+        let mut cases: Vec<(u8, bool, u32, u16, i16)> = Vec::new();
+        for vertical in [false, true] {
+            for (n, t) in [(255u32, 256u16), (256, 256), (257, 256), (512, 256), (1024, 64), (1025, 64), (300, 300)] {
+                let extent = n as i64 * t as i64;
+                let mut offs: Vec<i64> = vec![0, -1, -(t as i64), -(extent % 65536), -(extent % 65536) - 1, -(extent - 4).min(32768), -32768, 3];
+                offs.sort();
+                offs.dedup();
+                for o in offs {
+                    if o >= -32768 {
+                        cases.push((0, vertical, n, t, o as i16));
+                    }
+                }
+            }
+            for n in [32767u32, 32768, 32769, 65535] {
+                for o in [0i16, -1, -32768, -(n.min(32768) as i32 - 4) as i16, 3] {
+                    cases.push((1, vertical, n, 1, o));
+                }
+            }
+        }
+        ctx.family("large-extent", cases.len() as u64, "one tilemap cel of N tiles of extent T along one axis with N*T in {65280, 65536, 65792, 90000, 131072, 65600} (or one image cel 32767 / 32768 / 32769 / 65535 pixels long) on an 8x4 canvas, at offsets {0, -1, 3, -T, -(N*T mod 65536), that minus 1, -(extent-4), -32768}, x axis and y axis: the frame image, the cel image and the tilemap image must agree with each other and with the model", true);
+        cases.par_iter().for_each(|(kind, vertical, n, t, off)| {
+            let case = || format!("kind={} axis={} n={} t={} offset={}", if *kind == 0 { "tilemap" } else { "image" }, if *vertical { "y" } else { "x" }, n, t, off);
+            if !ctx.wants("large-extent", &case) {
+                return;
+            }
+            let mut f = gen::file(8, 4, &fmt, &[10]);
+            let (ox, oy) = if *vertical { (0i16, *off) } else { (*off, 0i16) };
+            if *kind == 0 {
+                let (tw, th) = if *vertical { (2u16, *t) } else { (*t, 2u16) };
+                // two tiles: tile 0 transparent, tile 1 position-coded
+                let per = tw as usize * th as usize;
+                let mut px = vec![0u8; per * 4];
+                for i in 0..per {
+                    px.extend_from_slice(&[(i % 251) as u8, (i / 251 % 256) as u8, 77, 255]);
+                }
+                f.frames[0].push(Body::Tileset(tileset(0, 2, tw, th, px, "t")));
+                f.frames[0].push(Body::Layer(Layer::tilemap("m", 0)));
+                let (mw, mh) = if *vertical { (1u16, *n as u16) } else { (*n as u16, 1u16) };
+                f.frames[0].push(tm_cel(0, ox, oy, 255, mw, mh, vec![1; *n as usize]));
+            } else {
+                f.frames[0].push(Body::Layer(Layer::image("l")));
+                let (w, h) = if *vertical { (1u16, *n as u16) } else { (*n as u16, 1u16) };
+                let data: Vec<u8> = (0..*n).flat_map(|i| [(i % 251) as u8, (i / 251 % 256) as u8, 99, 255]).collect();
+                f.frames[0].push(zcel(0, ox, oy, 255, w, h, data, 1));
+            }
+            let c = conform(ctx, "large-extent", &case, &f, &want);
+            if let Some(o) = &c.obs {
+                if let Some(msg) = direct_checks(o) {
+                    ctx.violation(Violation { family: "large-extent".into(), case: case(), sig: format!("direct:{}", sig_of(&msg)), detail: msg, bytes: None, extra: json!({}) });
+                }
+            }
+        });
+    }
+
     // more than 65536 layers: coordinates that do not fit 16 bits
     if ctx.wants_family("beyond-u16") {
         let cases: Vec<(usize, usize)> = vec![(65536, 1), (65537, 1), (65540, 2), (70000, 1)];
